@@ -27,6 +27,8 @@ type attrs struct {
 	SubNum byte   `json:"sub_segment_num"`
 	SubExp byte   `json:"sub_segments_expected"`
 	Noise  uint32 `json:"-"`
+	// 0 time_signal, 1 splice_insert returning to the network, 2 splice_insert leaving it
+	Carrier int `json:"carrier"`
 }
 
 type wit struct {
@@ -57,6 +59,10 @@ func mk(a attrs) D {
 		if d.UPIDType() != 0 {
 			d.SetUPID(r.Bytes(r.Intn(12)))
 		}
+		if r.Chance(3) { // the same content identifier on many descriptors: not a condition of either relation
+			d.SetUPIDType(0x09)
+			d.SetUPID([]byte("SIGNAL:same-content"))
+		}
 		d.SetIsEventCanceled(r.Chance(4)) // not one of the conditions the relation may depend on
 	}
 	s := scte35.CreateSCTE35()
@@ -68,6 +74,19 @@ func mk(a attrs) D {
 	}
 	if order >= 1 {
 		s.SetDescriptors([]D{d})
+	}
+	if a.HasPTS && a.Noise != 0 && a.Carrier != 0 {
+		// a splice_insert carrier (program splice with a time): out_of_network_indicator is the command's business
+		si := scte35.CreateSpliceInsertCommand()
+		si.SetIsProgramSplice(true)
+		si.SetHasPTS(true)
+		si.SetIsOut(a.Carrier == 2)
+		si.SetEventID(r.Uint32())
+		si.SetPTS(gots.PTS(a.PTS))
+		s.SetCommandInfo(si)
+		s.SetPTS(gots.PTS(a.PTS))
+		s.SetDescriptors([]D{d})
+		return d
 	}
 	if a.HasPTS {
 		ts := scte35.CreateTimeSignalCommand()
@@ -109,7 +128,7 @@ func run(c *mon.Ctx) {
 		for _, ne := range [][2]byte{{3, 3}, {3, 4}, {5, 4}, {2, 0}, {0, 0}, {255, 255}, {255, 254}, {0, 1}} {
 			numEq := ne[0] == ne[1]
 			for sv := 0; sv < 3; sv++ {
-				a := attrs{Type: byte(in), Event: 7, PTS: P, HasPTS: true, SegNum: ne[0], SegExp: ne[1], Noise: r.Uint32() | 1}
+				a := attrs{Type: byte(in), Event: 7, PTS: P, HasPTS: true, SegNum: ne[0], SegExp: ne[1], Noise: r.Uint32() | 1, Carrier: len(incs) % 3}
 				switch sv {
 				case 1:
 					a.HasSub, a.SubNum, a.SubExp = true, 2, 2
@@ -123,11 +142,15 @@ func run(c *mon.Ctx) {
 			for _, evEq := range []bool{true, false} {
 				for _, ptsEq := range []bool{true, false} {
 					b := attrs{Type: byte(out), Event: 7, PTS: P, HasPTS: true, SegNum: byte(r.Intn(4)), SegExp: byte(r.Intn(4)), Noise: r.Uint32() | 1}
+					b.Carrier = r.Intn(3)
 					if !evEq {
-						b.Event = 8
+						b.Event = uint32(r.PickU64([]uint64{8, 8, 6, 7 | 0x80000000, 7 + 1<<16}))
 					}
 					if !ptsEq {
-						b.PTS = Q
+						b.PTS = r.PickU64([]uint64{Q, Q, P + 1<<32, P - 1})
+					}
+					if !evEq && !ptsEq && r.Chance(3) {
+						b.Event, b.PTS = 6, P+1<<32 // differs in both, by the amounts a packed comparison would confuse
 					}
 					od := mk(b)
 					for _, ic := range incs {
@@ -153,11 +176,19 @@ func run(c *mon.Ctx) {
 				}
 			}
 		}
-		// in / out classification
-		d := incs[0].d
-		c.Eval(1)
-		if d.IsIn() != ref.IsSegIn(byte(in)) || d.IsOut() != ref.IsSegOut(byte(in)) || (d.IsIn() && d.IsOut()) {
-			c.Fail(fmt.Sprintf("inout:%02x", in), fmt.Sprintf("type %#02x: IsIn=%v IsOut=%v; documented lists say in=%v out=%v", in, d.IsIn(), d.IsOut(), ref.IsSegIn(byte(in)), ref.IsSegOut(byte(in))), wit{A: incs[0].a, Detail: "IsIn/IsOut"})
+		// in / out classification: a function of the type, whatever the carrier (time_signal, splice_insert in / out, none)
+		detached := scte35.CreateSegmentationDescriptor()
+		detached.SetTypeID(scte35.SegDescType(in))
+		for k := -1; k < len(incs); k++ {
+			d, a := detached, attrs{Type: byte(in), Carrier: -1}
+			if k >= 0 {
+				d, a = incs[k].d, incs[k].a
+			}
+			c.Eval(1)
+			if d.IsIn() != ref.IsSegIn(byte(in)) || d.IsOut() != ref.IsSegOut(byte(in)) || (d.IsIn() && d.IsOut()) {
+				c.Fail(fmt.Sprintf("inout:%02x", in), fmt.Sprintf("type %#02x (carrier kind %d): IsIn=%v IsOut=%v; documented lists say in=%v out=%v", in, a.Carrier, d.IsIn(), d.IsOut(), ref.IsSegIn(byte(in)), ref.IsSegOut(byte(in))), wit{A: a, Detail: "IsIn/IsOut"})
+				break
+			}
 		}
 	})
 
@@ -167,12 +198,21 @@ func run(c *mon.Ctx) {
 		var as []attrs
 		var ds []D
 		for len(as) < poolN {
+			// value schemes: small values; values that differ by one event id and 2^32 ticks; event-id wrap-around
+			evs, ptss := [2]uint32{1, 2}, [2]uint64{1000, 2000}
+			switch pi % 3 {
+			case 1:
+				evs, ptss = [2]uint32{0x10, 0x11}, [2]uint64{0x100001234, 0x1234}
+			case 2:
+				evs, ptss = [2]uint32{0xffffffff, 0}, [2]uint64{1<<32 + 5, 5}
+			}
 			a := attrs{
-				Type:   r.PickByte([]byte{0x34, 0x36, 0x35, 0x30, 0x10, 0x11}),
-				Event:  uint32(1 + r.Intn(2)),
-				PTS:    uint64(1000 + 1000*r.Intn(2)),
-				HasPTS: !r.Chance(5),
-				SegNum: byte(1 + r.Intn(2)), SegExp: byte(1 + r.Intn(2)),
+				Type:    r.PickByte([]byte{0x34, 0x36, 0x35, 0x30, 0x10, 0x11}),
+				Event:   evs[r.Intn(2)],
+				PTS:     ptss[r.Intn(2)],
+				Carrier: r.Intn(3),
+				HasPTS:  !r.Chance(5),
+				SegNum:  byte(1 + r.Intn(2)), SegExp: byte(1 + r.Intn(2)),
 				HasSub: r.Bool(), SubNum: byte(1 + r.Intn(2)), SubExp: byte(1 + r.Intn(2)),
 				Noise: r.Uint32() | 1,
 			}
@@ -227,8 +267,8 @@ func run(c *mon.Ctx) {
 	})
 	// the relations follow the current field values: compare, change a field through a setter, compare again
 	c.Stream("after-setters", c.N(3000, 500000), func(i int, r *gen.Rand) {
-		a := attrs{Type: r.PickByte([]byte{0x35, 0x37, 0x31, 0x34, 0x11, 0x41}), Event: uint32(1 + r.Intn(2)), PTS: uint64(1000 + 1000*r.Intn(2)), HasPTS: true, SegNum: byte(1 + r.Intn(2)), SegExp: byte(1 + r.Intn(2)), Noise: r.Uint32() | 1}
-		b := attrs{Type: r.PickByte([]byte{0x34, 0x36, 0x30, 0x10, 0x40, 0x3c, 0x44}), Event: uint32(1 + r.Intn(2)), PTS: uint64(1000 + 1000*r.Intn(2)), HasPTS: true, SegNum: 1, SegExp: 1, Noise: r.Uint32() | 1}
+		a := attrs{Type: r.PickByte([]byte{0x35, 0x37, 0x31, 0x34, 0x11, 0x41}), Event: uint32(1 + r.Intn(2)), PTS: uint64(1000 + 1000*r.Intn(2)), HasPTS: true, SegNum: byte(1 + r.Intn(2)), SegExp: byte(1 + r.Intn(2)), Noise: r.Uint32() | 1, Carrier: r.Intn(3)}
+		b := attrs{Type: r.PickByte([]byte{0x34, 0x36, 0x30, 0x10, 0x40, 0x3c, 0x44}), Event: uint32(1 + r.Intn(2)), PTS: uint64(1000 + 1000*r.Intn(2)), HasPTS: true, SegNum: 1, SegExp: 1, Noise: r.Uint32() | 1, Carrier: r.Intn(3)}
 		da, db := mk(a), mk(b)
 		check := func(when string) bool {
 			want := ref.CanClose(a.Type, b.Type, a.Event == b.Event, a.PTS == b.PTS, a.SegNum == a.SegExp)
